@@ -110,6 +110,8 @@ class C18(Prop):
             "chunk": st.one_of(st.none(), st.sampled_from([1000, 16384, 20000, 65536, 70000])),
             # an earlier connection in this process (same WebSocket object or another) and how it ended
             "prelude": gen.prelude(),
+            # a second live connection in the same process (interleaved with this one, or blocked in a send)
+            "companion": gen.companion(),
         })
 
     def enumerations(self, tier):
